@@ -357,6 +357,7 @@ func genJsonx(repo string, fs facts) (string, error) {
 
 	// --- parseValue: float under a leading sign is converted ---
 	signedFloat := false
+	signRecursive := false // the sign case calls parseValue for its operand
 	if pv := jx.fn("", "parseValue"); pv != nil {
 		found := false
 		ast.Inspect(pv.Body, func(m ast.Node) bool {
@@ -372,6 +373,9 @@ func genJsonx(repo string, fs facts) (string, error) {
 							if c08HasCall(st, "parseFloatValue") {
 								signedFloat = true
 							}
+							if c08HasCall(st, "parseValue") {
+								signRecursive = true
+							}
 						}
 					}
 				}
@@ -385,6 +389,7 @@ func genJsonx(repo string, fs facts) (string, error) {
 		fallback = append(fallback, "parseValue")
 	}
 	f["signedFloatParsed"] = signedFloat
+	f["signCaseCallsParseValue"] = signRecursive
 
 	// --- nesting depth limit: a constant N, a guard function whose first
 	// statement is `if p.depth >= N { report; return false }` followed by
@@ -612,7 +617,8 @@ func genJsonx(repo string, fs facts) (string, error) {
 	} else {
 		b.WriteString("/-- parseValue has no nesting limit -/\ndef depthLimit : Option Nat := none\n\n")
 	}
-	b.WriteString("def cfg : Cfg := ⟨errMax, skipCond, signedFloatParsed, listBreaks, objBreaks, depthLimit⟩\n")
+	fmt.Fprintf(&b, "/-- the sign case of parseValue calls parseValue for its operand -/\ndef signRecursive : Bool := %s\n\n", b2(signRecursive))
+	b.WriteString("def cfg : Cfg := ⟨errMax, skipCond, signedFloatParsed, listBreaks, objBreaks, depthLimit, signRecursive⟩\n")
 	b.WriteString("def lexCfg : LexCfg := ⟨expSigns, keywords⟩\n\n")
 	b.WriteString("end PubModel.Gen.Jsonx\n")
 	return b.String(), nil
